@@ -91,7 +91,20 @@ def plan_calls(rng, desc, oracle):
 def prepare(desc, call_seed, outdir):
     """run the real generator, write the probe; returns a dict for the later steps"""
     rng = random.Random(call_seed)
-    iface = lg.build_iface(desc)
+    nested = [s for s in desc["structs"] if s["members"] and any(m[0] == "S" and m[2] == s["name"] for t in desc["structs"] + desc["msgs"] for m in t["members"])]
+    if nested and rng.random() < 0.35:
+        # history: the interface objects are generated from once before a nested struct receives its last member(s)
+        s0 = rng.choice(nested)
+
+        def between(ifc):
+            with kj.scratch() as d0:
+                try:
+                    kj.generate("proto", os.path.join(d0, "out"), iface=ifc, ns=desc["ns"], name=desc["cls"], copy_other=False)
+                except Exception:  # noqa -- the intermediate interface need not be valid (e.g. an empty struct)
+                    pass
+        iface = lg.build_iface(desc, hold_back=(s0["name"], rng.randint(1, len(s0["members"]))), between=between)
+    else:
+        iface = lg.build_iface(desc)
     kj.generate("proto", outdir, iface=iface, ns=desc["ns"], name=desc["cls"], copy_other=True)
     oracle = lg.Oracle(desc)
     calls = plan_calls(rng, desc, oracle)
